@@ -415,7 +415,7 @@ def replay(o, scenario):
                 o.stats["traces_validated"] = 1
                 o.detail += "; replayed natively: files with different transform output (AAAAAAAAx1 / AAAAAAAAx2) reported as identical"
             else:
-                o.verdict, o.detail = "inconclusive", "counterexample did not reproduce through the CLI"
+                battery_fallback(o, binary)
         elif scenario == "hardlink-transform":
             open(os.path.join(root, "a.txt"), "w").write("hello world")
             os.link(os.path.join(root, "a.txt"), os.path.join(root, "a_link.txt"))
@@ -430,7 +430,7 @@ def replay(o, scenario):
                 o.detail += "; replayed natively: one content class split into %d groups %s" % (
                     len(groups), [(g["file_len"], [os.path.basename(f) for f in g["files"]]) for g in groups])
             else:
-                o.verdict, o.detail = "inconclusive", "counterexample did not reproduce through the CLI"
+                battery_fallback(o, binary)
         else:
             import sys
             sys.path.insert(0, os.path.join(os.path.dirname(os.path.dirname(os.path.abspath(__file__))), "replay"))
@@ -444,6 +444,19 @@ def replay(o, scenario):
                 o.verdict, o.detail = "inconclusive", "counterexample did not reproduce through the CLI (content battery: sizes around every threshold x configurations, transforms, hard links)"
     finally:
         shutil.rmtree(d, ignore_errors=True)
+
+
+def battery_fallback(o, binary):
+    import sys
+    sys.path.insert(0, os.path.join(os.path.dirname(os.path.dirname(os.path.abspath(__file__))), "replay"))
+    import batteries
+    devs = batteries.c01_battery(binary)
+    o.cex["native_battery"] = devs[:5]
+    if devs:
+        o.stats["traces_validated"] = 1
+        o.detail += "; replayed natively (content battery: byte comparison of every reported group): %s" % devs[:2]
+    else:
+        o.verdict, o.detail = "inconclusive", "counterexample did not reproduce through the CLI (scenario and content battery)"
 
 
 def size_straddle_replay(binary, root, env):
